@@ -12,7 +12,18 @@ def fingerprint(r):
     return (projrun.impl_status(r), r["ninja"], blds)
 
 
-def run_variant(p, args, env=None, comma=False):
+def sibling_define(d):
+    """the other kind of assignment with the same text: V=x <-> V+=x"""
+    if "+=" in d and "=" not in d.split("+=")[0]:
+        k, v = d.split("+=", 1)
+        return k + "=" + v
+    k, v = d.split("=", 1)
+    return k + "+=" + v
+
+
+def run_variant(p, args, env=None, comma=False, before=None):
+    """`before`: arguments of a run made FIRST in the same build directory (what it leaves behind — the cache — must not change
+    what the command line means)"""
     os.makedirs(projrun.SCRATCH, exist_ok=True)
     root = os.path.join(projrun.SCRATCH, "c20-" + projcheck.phash(p)[:12] + "-" + str(os.getpid()))
     if os.path.exists(root):
@@ -20,6 +31,9 @@ def run_variant(p, args, env=None, comma=False):
     os.makedirs(root)
     try:
         projrun.write_project(root, p["files"])
+        if before is not None:
+            projrun.run_laze(root, dict(before))
+            projrun.read_dump(root)
         a = dict(args)
         more = []
         if comma:
@@ -119,6 +133,9 @@ def one(job):
         q = rewrite_define(p, a["define"])
         if q is not None:
             out.append(("infile-define", a["define"], run_variant(p, a1), run_variant(q, base)))
+            # the same, after a run with the sibling assignments (V=x <-> V+=x) in the same build directory
+            a0 = dict(base, define=[sibling_define(d) for d in a["define"]])
+            out.append(("infile-define-after-sibling-run", a["define"], run_variant(p, a1, before=a0), run_variant(q, base)))
     return (p, [(k, x, fingerprint(r1), fingerprint(r2), (r2["stderr"] or "")[-200:]) for k, x, r1, r2 in out])
 
 
